@@ -401,8 +401,8 @@ func TestC12(t *testing.T) {
 	inits := []int64{0, ms, 10 * ms, 500 * ms, 3 * int64(time.Second), 7}
 	mults := []float64{0, 1, 1.5, 2, 10, 0.5, 1.0000001}
 	jitters := []float64{-1, -1, 0, 0.1, 0.5, 0.99, 1, 2, -0.5}
-	maxInts := []int64{0, 0, ms / 2, 20 * ms, int64(time.Second), int64(time.Hour)}
-	maxEl := []int64{0, 0, 0, 5 * ms, 100 * ms, 10 * int64(time.Second), int64(time.Hour)}
+	maxInts := []int64{0, 0, 1, ms / 2, 20 * ms, int64(time.Second), int64(time.Hour)}
+	maxEl := []int64{0, 0, 0, 1, 5 * ms, 100 * ms, 10 * int64(time.Second), int64(time.Hour)}
 	maxRet := []int{-1, 0, 0, 1, 3, 7}
 	n := r.N(8000, 200000)
 	for i := 0; i < n; i++ {
